@@ -278,6 +278,10 @@ func runOverlayTest(repo, pkgDir, testName, src, dir string) (failed bool, outpu
 	if len(out) > 6000 {
 		out = out[:6000] + "..."
 	}
+	if err != nil && (strings.Contains(out, "goroutine stack exceeds") || strings.Contains(out, "fatal error: stack overflow")) {
+		// a stack overflow is a fatal error: the test process dies before it can print anything
+		out = "REPLAY-VIOLATION the test process died with a stack overflow (fatal, not recoverable)\n" + out
+	}
 	return err != nil && strings.Contains(out, "REPLAY-VIOLATION"), out
 }
 
